@@ -79,6 +79,8 @@ func (c15) Gen(r *sim.Rand, tier string, run uint64) *sim.Scenario {
 			k = r.Intn(12)
 			if r.Chance(1, 5) {
 				plan = sim.SinkShortOnce
+			} else if r.Chance(1, 5) {
+				plan = sim.SinkErrOnce
 			}
 		}
 		l := sim.Op{K: "listing", N: []int64{int64(r.Intn(2)), int64(plan), int64(k)}}
@@ -479,7 +481,7 @@ func (c15) Exec(sc *sim.Scenario, env *sim.Env) *sim.Violation {
 			continue
 		case "listing":
 			kind, plan, k := op.Arg(0)&1, int(op.Arg(1)), int(op.Arg(2))
-			if plan < 0 || (plan > 3 && plan != sim.SinkShortOnce) {
+			if plan < 0 || (plan > 3 && plan != sim.SinkShortOnce && plan != sim.SinkErrOnce) {
 				plan = 0
 			}
 			pre := snapEmitter(e)
@@ -524,6 +526,15 @@ func (c15) Exec(sc *sim.Scenario, env *sim.Env) *sim.Violation {
 					return v
 				}
 				st.ProbeIf(rs.Upgrades > 0, "listing_used_optional_writer_interface")
+			}
+			if k%5 == 1 {
+				// listing switched off: a nil writer. Nothing to write to, nothing written anywhere
+				// (the process's standard output is watched by the globals snapshot, C18)
+				p, pmsg, err := doListing(e, kind, nil)
+				if p || err != nil {
+					return &sim.Violation{Oracle: "listing_panic", Step: i, Msg: fmt.Sprintf("listing (kind %d) with a nil writer: panic=%v %s err=%v", kind, p, pmsg, err)}
+				}
+				st.Probe("listing_to_nil_writer")
 			}
 			st.ProbeIf(refusedSoFar, "listing_after_refusal")
 			if refusedSoFar {
